@@ -165,6 +165,31 @@ def run_case(spec):
         diff = P[:, 0] - P[:, 1]
         evals += judge('SDML.fit', lambda b, s: ml.SDML(prior=prv, balance_param=b, sparsity_param=s, random_state=1), (P, y),
                        M0, M0inv, diff, y, [0.1, 0.5, 0.9, 2.0, 10.0, 100.0], [pr], viol, sigs, stats, ('SDML', dsn, pr))
+        if pr in ('covariance', 'random', 'array'):
+            # the SAME estimator object fitted a second time (other pairs; other seed for the random prior) must return what a
+            # fresh estimator returns on that second input: nothing derived from the prior of the first fit may survive
+            P2 = (P[::-1][: max(4, (2 * len(P)) // 3)] * np.array([1.0, 2.0] + [0.5] * (d - 2))[:d] + 0.25).copy()
+            y2 = y[::-1][: len(P2)].copy()
+            if len(set(y2.tolist())) == 2:
+                try:
+                    bal2 = 0.5 * b_max(priors.prior_matrix(prv, P2, d, seed=1)[1], ((P2[:, 0] - P2[:, 1]).T * y2).dot(P2[:, 0] - P2[:, 1]))
+                    bal2 = bal2 if np.isfinite(bal2) and bal2 > 0 else 1e-3
+                    for rs2 in ((1, 2) if pr == 'random' else (1,)):
+                        e1 = ml.SDML(prior=prv, balance_param=bal2, sparsity_param=0.01, random_state=1)
+                        e1.fit(P.copy(), y.copy())
+                        e1.set_params(random_state=rs2)
+                        e1.fit(P2.copy(), y2.copy())
+                        e2 = ml.SDML(prior=prv, balance_param=bal2, sparsity_param=0.01, random_state=rs2).fit(P2.copy(), y2.copy())
+                        evals += 3
+                        sigs.add(('SDML', dsn, pr, 'refit', rs2))
+                        if not np.array_equal(e1.components_, e2.components_):
+                            viol.append(V('SDML.fit', 'refit_differs_from_fresh', 'an SDML object fitted on pair set A and then on pair set B%s '
+                                          'returns another metric than a fresh object fitted on B (max abs difference %.3g): the second result '
+                                          'is not the minimiser of the documented objective for B' % (
+                                              ' with another random_state' if rs2 != 1 else '',
+                                              np.abs(e1.get_mahalanobis_matrix() - e2.get_mahalanobis_matrix()).max()), [pr, 'refit']))
+                except RuntimeError:
+                    pass
         if pr in ('identity', 'array'):
             # pair sets of unusual size: a single pair (either label), two pairs, and 1 700 pairs drawn over the same points
             n_pts = len(ds.X)
